@@ -433,7 +433,7 @@ func TestLive(t *testing.T) {
 		res.Break("input lacks cases / cat / consts")
 		return
 	}
-	dir, err := os.MkdirTemp("", "c06-live-")
+	dir, err := os.MkdirTemp(scratchBase(), "c06-live-")
 	if err != nil {
 		res.Break("%v", err)
 		return
